@@ -113,6 +113,12 @@ class Scenario:
             return impl
 
         def f(*args):
+            if any(isinstance(a, np.ndarray) for a in args):
+                arrs = np.broadcast_arrays(*[np.asarray(a, dtype=object) for a in args])
+                out = np.empty(arrs[0].shape, dtype=object)
+                for idx in np.ndindex(arrs[0].shape):
+                    out[idx] = Sym(core.fn(name, *[core.lift(a[idx]) for a in arrs]))
+                return out
             return Sym(core.fn(name, *[core.lift(a) for a in args]))
         return f
 
@@ -447,11 +453,30 @@ def discharge(o, hyps, pool, budget_ms=20000):
         if r['model'] and all(v is not None for v in r['model'].values()):
             base = {k: v for k, v in r['model'].items() if core.CTX.atoms[k].get('defn') is None}
             w = Point('smtmodel', base)
+        if _has_uninterpreted(o, hyps):
+            # the solver treats log / powers / material functions as arbitrary functions: its counter-model is
+            # only a refutation if it is one for the real functions too
+            confirmed = False
+            if w is not None:
+                try:
+                    confirmed = _numeric_check(o, [w]) is not None and all(w.eval(h) is not False for h in hyps)
+                except Exception:
+                    confirmed = False
+            if not confirmed:
+                DEADLINE['unknowns'] = DEADLINE.get('unknowns', 0) + 1
+                return dict(status='undecided', backend=r['backend'], seconds=time.time() - t0, witness=None,
+                            detail='SMT counter-model uses uninterpreted functions and is not confirmed with the '
+                                   'real functions')
         return dict(status='refuted', backend=r['backend'], seconds=time.time() - t0, witness=w,
                     detail='SMT counter-model')
     DEADLINE['unknowns'] = DEADLINE.get('unknowns', 0) + 1
     return dict(status='undecided', backend=r['backend'], seconds=time.time() - t0, witness=None,
                 detail='solver returned unknown')
+
+
+def _has_uninterpreted(o, hyps):
+    roots = [x for x in (o.lhs, o.rhs) if x is not None] + list(hyps)
+    return any(n.op in ('fn', 'rpow') for n in core.topo(roots, defs=True))
 
 
 def _has_int_atoms(o):
